@@ -1640,6 +1640,51 @@ class Sim:
         if final is not None and missing is not None and not self.status_faults:
             self.final_tally(final, missing)
         self.final_hooks(complete)
+        if scen.get("check_events") and complete:
+            self.final_events()
+
+    def final_events(self):
+        """C20a on the events that the real JADE processes of this run wrote: every line of every *events.log file must be in
+        the consolidated summary exactly once, ordered by time within its name, and consolidating again must not change it."""
+        import glob as _g
+
+        raw = {}
+        nlines = 0
+        for f in _g.glob(os.path.join(self.out, "*events.log")):
+            try:
+                for line in open(f):
+                    if not line.strip():
+                        continue
+                    rec = json.loads(line)
+                    nlines += 1
+                    raw.setdefault(rec["name"], []).append(json.dumps([rec.get("timestamp"), rec.get("source"), rec.get("category"), rec.get("message"), rec.get("data")], sort_keys=True))
+            except (OSError, ValueError) as e:
+                self.viol("C20", "event-file-unreadable", f"{os.path.basename(f)}: {e!r}")
+                return
+        if not nlines:
+            return
+        from jade.events import EventsSummary
+
+        def collect():
+            es = EventsSummary(self.outname)
+            return {name: [(ev.timestamp, json.dumps([ev.timestamp, ev.source, ev.category, ev.message, ev.data], sort_keys=True)) for ev in es.list_events(name)] for name in raw}
+
+        try:
+            first = collect()
+            second = collect()
+        except Exception as e:
+            self.viol("C20", "summary-crashed", f"EventsSummary raised {e!r} on the {nlines} events of this run")
+            return
+        for name, lines in raw.items():
+            got = [x[1] for x in first.get(name, [])]
+            if sorted(got) != sorted(lines):
+                self.viol("C20", "event-multiset", f"event name {name!r}: {len(lines)} written by the run's processes, {len(got)} in the consolidated summary")
+            ts = [x[0] for x in first.get(name, [])]
+            if ts != sorted(ts):
+                self.viol("C20", "event-order", f"event name {name!r}: not ordered by time in the consolidated summary")
+        if first != second:
+            self.viol("C20", "not-idempotent", "consolidating the events of this run again changed the summary")
+        self.events_checked = nlines
 
     def final_hooks(self, complete):
         h = self.hooks_cfg()
@@ -1874,6 +1919,7 @@ class Sim:
             "cancel_sites": getattr(self, "cancel_sites", None),
             "time_jumps": self.time_jumps,
             "parks": self.parks,
+            "events_checked": getattr(self, "events_checked", 0),
             "endgame_stalled_at": str(self.eg.get("at")) if self.eg and self.eg.get("at") else None,
             "inner_evals": sum(self.inner_evals.values()),
             "inner_failures": [list(map(str, f)) for f in self.inner_failures[:5]],
